@@ -1145,7 +1145,7 @@ fn exec(w: &mut World, op: &Op, in_dtor_of: Option<&Node>, dry: bool) -> Option<
             }
             w.clone_shallow = op.op == "MakeMutS";
             w.clone_panics = clone_panics;
-            if branch == "cloned" && !w.clone_shallow {
+            if branch == "cloned" && !w.clone_shallow && !clone_panics {
                 // cloning the value clones every stored strong handle: predicted abort
                 let n = node(w, a);
                 let dead: Vec<u32> = n.strong.borrow().iter().map(|e| e.target).collect();
